@@ -485,3 +485,151 @@ theorem seq_results_get_none (p : P) (hp : p ∉ tasks.map Prod.fst) :
 
 end Batch
 end TD.C12
+
+namespace TD.C12
+
+/-! ### strings: splitting at a separator, decimal numerals, posixpath facts -/
+
+theorem split_at_first {α : Type} {c : α} {a a' b b' : List α} (h : a ++ c :: b = a' ++ c :: b')
+    (ha : c ∉ a) (ha' : c ∉ a') : a = a' ∧ b = b' := by
+  induction a generalizing a' with
+  | nil =>
+    cases a' with
+    | nil => simpa using h
+    | cons x r =>
+      simp only [List.nil_append, List.cons_append, List.cons.injEq] at h
+      exact absurd (h.1 ▸ List.mem_cons_self) ha'
+  | cons y s ih =>
+    cases a' with
+    | nil =>
+      simp only [List.nil_append, List.cons_append, List.cons.injEq] at h
+      exact absurd (h.1 ▸ List.mem_cons_self) ha
+    | cons x r =>
+      simp only [List.cons_append, List.cons.injEq] at h
+      have := ih h.2 (fun hm => ha (List.mem_cons_of_mem _ hm)) (fun hm => ha' (List.mem_cons_of_mem _ hm))
+      exact ⟨by rw [h.1, this.1], this.2⟩
+
+theorem split_at_last {α : Type} {c : α} {a a' b b' : List α} (h : a ++ c :: b = a' ++ c :: b')
+    (hb : c ∉ b) (hb' : c ∉ b') : a = a' ∧ b = b' := by
+  have h' := congrArg List.reverse h
+  simp only [List.reverse_append, List.reverse_cons, List.append_assoc, List.singleton_append] at h'
+  have := split_at_first h' (by simpa using hb) (by simpa using hb')
+  exact ⟨List.reverse_inj.mp this.2, List.reverse_inj.mp this.1⟩
+
+theorem dec_inj {n m : Nat} (h : dec n = dec m) : n = m := by
+  have := congrArg (fun l => Nat.ofDigitChars 10 l 0) h
+  simpa [dec] using this
+
+theorem underscore_not_mem_dec (n : Nat) : '_' ∉ dec n := by
+  simp [dec]
+
+theorem pad4_inj {n m : Nat} (h : pad4 n = pad4 m) : n = m := by
+  have := congrArg (fun l => Nat.ofDigitChars 10 l 0) h
+  simpa [pad4, dec, Nat.ofDigitChars_append] using this
+
+theorem underscore_not_mem_pad4 (n : Nat) : '_' ∉ pad4 n := by
+  simp [pad4, dec, List.mem_replicate]
+
+theorem underscore_not_mem_dotLas : '_' ∉ dotLas := by decide
+
+theorem mem_takeWhile_sat {α : Type} {p : α → Bool} {l : List α} {x : α} (h : x ∈ l.takeWhile p) : p x = true := by
+  induction l with
+  | nil => simp at h
+  | cons a r ih =>
+    rw [List.takeWhile_cons] at h
+    split at h
+    · rcases List.mem_cons.mp h with e | h'
+      · subst e; assumption
+      · exact ih h'
+    · simp at h
+
+theorem slash_not_mem_basename (p : Str) : '/' ∉ basename p := by
+  intro h
+  have h' : '/' ∈ p.reverse.takeWhile (· != '/') := by simpa [basename] using h
+  have := mem_takeWhile_sat h'
+  simp at this
+
+theorem mem_stemOfName {n : Str} {c : Char} (h : c ∈ stemOfName n) : c ∈ n := by
+  unfold stemOfName at h
+  split at h
+  · simp only at h
+    split at h
+    · exact h
+    · have h1 := List.mem_reverse.mp h
+      have h2 := List.mem_of_mem_drop h1
+      have h3 := (List.dropWhile_sublist _).mem h2
+      exact List.mem_reverse.mp h3
+  · exact h
+
+theorem slash_not_mem_stem (p : Str) : '/' ∉ stemOfName (basename p) :=
+  fun h => slash_not_mem_basename p (mem_stemOfName h)
+
+/-- `join d` is injective on names that do not start with '/' -/
+theorem join_inj {d a b : Str} (ha : a.head? ≠ some '/') (hb : b.head? ≠ some '/') (h : join d a = join d b) :
+    a = b := by
+  unfold join at h
+  simp only [ha, hb, if_false] at h
+  split at h
+  · exact (List.append_right_inj d).mp h
+  · have := (List.append_right_inj d).mp h
+    simpa using this
+
+theorem rpName_head (s : Str) (lf : Nat) (id : Str) (hs : '/' ∉ s) : (rpName s lf id).head? ≠ some '/' := by
+  cases s with
+  | nil => simp [rpName]
+  | cons c r =>
+    simp only [rpName, List.cons_append, List.head?_cons, ne_eq, Option.some.injEq]
+    intro hc; exact hs (hc ▸ List.mem_cons_self)
+
+theorem rpName_inj_same_stem {s : Str} {lf lf' : Nat} {id id' : Str}
+    (h : rpName s lf id = rpName s lf' id') : lf = lf' ∧ id = id' := by
+  unfold rpName at h
+  have h1 := (List.append_right_inj s).mp h
+  simp only [List.cons.injEq, true_and] at h1
+  have h2 := split_at_first h1 (underscore_not_mem_dec lf) (underscore_not_mem_dec lf')
+  exact ⟨dec_inj h2.1, (List.append_left_inj dotLas).mp h2.2⟩
+
+theorem rpName_stem_prefix {s s' : Str} {lf lf' : Nat} {id id' : Str}
+    (h : rpName s lf id = rpName s' lf' id') :
+    s = s' ∨ (s ++ ['_']) <+: s' ∨ (s' ++ ['_']) <+: s := by
+  unfold rpName at h
+  rcases List.append_eq_append_iff.mp h with ⟨a, h1, h2⟩ | ⟨c, h1, h2⟩
+  · cases a with
+    | nil => left; simpa using h1.symm
+    | cons x r =>
+      right; left
+      simp only [List.cons_append, List.cons.injEq] at h2
+      rw [h1, ← h2.1]
+      exact ⟨r, by simp⟩
+  · cases c with
+    | nil => left; simpa using h1
+    | cons x r =>
+      right; right
+      simp only [List.cons_append, List.cons.injEq] at h2
+      rw [h1, ← h2.1]
+      exact ⟨r, by simp⟩
+
+theorem ascii_roundtrip : ∀ a : Fin 128, (Char.ofNat a.val).toNat = a.val := by decide
+
+theorem asciiDecode_inj {a b : List Nat} {s : Str} (ha : asciiDecode a = .ok s) (hb : asciiDecode b = .ok s) :
+    a = b := by
+  unfold asciiDecode at ha hb
+  split at ha <;> try (simp at ha; done)
+  split at hb <;> try (simp at hb; done)
+  rename_i h1 h2
+  simp only [Except.ok.injEq] at ha hb
+  have hh : a.map Char.ofNat = b.map Char.ofNat := by rw [ha, hb]
+  have hm := congrArg (List.map Char.toNat) hh
+  simp only [List.map_map] at hm
+  have fix : ∀ l : List Nat, l.all (· < 128) = true → l.map (Char.toNat ∘ Char.ofNat) = l := by
+    intro l hl
+    induction l with
+    | nil => rfl
+    | cons x r ih =>
+      simp only [List.all_cons, Bool.and_eq_true, decide_eq_true_eq] at hl
+      simp only [List.map_cons, Function.comp, ih hl.2]
+      rw [ascii_roundtrip ⟨x, hl.1⟩]
+  rw [fix a h1, fix b h2] at hm
+  exact hm
+
+end TD.C12
